@@ -118,6 +118,10 @@ func (m *Migrator) Migrate(
 		if err != nil {
 			return nil, fmt.Errorf("computing oldest block kept: %w", err)
 		}
+		if floor == 0 {
+			// Everything from genesis on is retained — nothing to prune.
+			return nil, nil
+		}
 		m.oldestBlockKept = floor
 		m.floorPinned = true
 	}
